@@ -1135,6 +1135,17 @@ func routeCase(c *core.Ctx, rng *rand.Rand) {
 			}
 		}
 		it := batch.NewShardGroupIterator(int32(k))
+		// the batch as the shard sort left it: the family iterator permutes rows only inside a shard group
+		type preRow struct {
+			id int
+			ts int64
+		}
+		var pre []preRow
+		for _, br := range batch.Rows() {
+			m := br.Metric()
+			pre = append(pre, preRow{idOf(m.Timestamp()), m.Timestamp()})
+		}
+		calc := timeutil.Interval(intervalMs).Calculator()
 		var groups []string
 		total := 0
 		byHash := map[uint64]int{}
@@ -1142,8 +1153,20 @@ func routeCase(c *core.Ctx, rng *rand.Rand) {
 		for it.HasRowsForNextShard() {
 			shard, fam := it.FamilyRowsForNextShard(timeutil.Interval(intervalMs))
 			var ids []int
+			var famOut []string
 			for fam.HasNextFamily() {
 				familyTime, frows := fam.NextFamily()
+				var fids []int
+				for i := range frows {
+					fm := frows[i].Metric()
+					fids = append(fids, idOf(fm.Timestamp()))
+				}
+				sort.Ints(fids)
+				var fs []string
+				for _, id := range fids {
+					fs = append(fs, fmt.Sprint(id))
+				}
+				famOut = append(famOut, fmt.Sprintf("%d:%s", (familyTime-familyStart)/hour, strings.Join(fs, ",")))
 				for i := range frows {
 					m := frows[i].Metric()
 					ts := m.Timestamp()
@@ -1157,6 +1180,13 @@ func routeCase(c *core.Ctx, rng *rand.Rand) {
 					}
 					byHash[m.KvsHash()] = shard
 				}
+			}
+			if total+len(ids) <= len(pre) {
+				ftoks := []string{"families"}
+				for _, r := range pre[total : total+len(ids)] {
+					ftoks = append(ftoks, fmt.Sprintf("%d:%d:%d", r.id, r.ts-familyStart, (calc.CalcFamilyTime(r.ts)-familyStart)/hour))
+				}
+				c.Op(strings.Join(ftoks, " "), strings.Join(famOut, " "))
 			}
 			sort.Ints(ids)
 			for i := 1; i < len(ids); i++ {
